@@ -40,6 +40,8 @@ TAGS = {
     7: 'get_observation_expression differs from model',
     8: 'get_individual_prediction_expression differs from model',
     9: 'get_population_prediction_expression differs from model',
+    10: 'cleanup_model parameters differ from model',
+    24: 'cleanup_model leaves a distribution whose variance parameter is no longer a parameter',
     21: 'get_observation_expression does not evaluate like the model statements',
     22: 'get_individual_prediction_expression does not evaluate like the statements at eps = 0',
     23: 'get_population_prediction_expression does not evaluate like the statements at eps = eta = 0',
@@ -54,15 +56,16 @@ TAGS = {
     19: 'remove_unused_parameters_and_rvs removes a parameter or rv that a statement mentions',
     20: 'remove_unused_parameters_and_rvs raises',
 }
-CORR = (1, 2, 3, 4, 5, 6, 7, 8, 9)
+CORR = (1, 2, 3, 4, 5, 6, 7, 8, 9, 10)
 # oracle tag -> (correspondence tag that must be absent for the model to explain it,
 #                [(guard tag that must be present = guard conjunct false, finding id), ...])
 STALE = (201, 'C07-DECL-STALE-CAPTURE')
 CHAIN = (202, 'C07-CLEANUP-ALIAS-CHAIN')
 DROPDV = (205, 'C07-CLEANUP-DROPS-DV')
 FIRSTY = (207, 'C07-OBS-EXPR-FIRST-ASSIGNMENT')
+FIXOM = (209, 'C07-FIXED-THETAS-REMOVES-OMEGAS')
 ORACLE = {
-    11: (1, [STALE]), 12: (2, [STALE, CHAIN]), 13: (2, [DROPDV]), 14: (1, [STALE]), 15: (2, [STALE, CHAIN]),
+    11: (1, [STALE]), 12: (2, [STALE, CHAIN]), 13: (2, [DROPDV]), 14: (1, [STALE]), 15: (2, [STALE, CHAIN, FIXOM]), 24: (2, [FIXOM]),
     16: (3, []), 17: (3, []), 18: (1, []), 19: (5, []), 20: (5, []),
     21: (7, [FIRSTY]), 22: (8, [FIRSTY]), 23: (9, [FIRSTY]),
 }
@@ -113,12 +116,29 @@ def gen_spec(rng):
     n = rng.choice([2, 3, 4, 5, 6, 7, 8, 10, 12, 14])
     style = rng.choice(['ssa', 'redefine', 'redefine', 'alias', 'alias', 'mixed', 'mixed'])
     fam = rng.choice(['tr', 'pw'])
+    fix = {}
+    for th in THETAS:
+        if rng.random() < 0.2:
+            fix[th] = rng.choice(INITS)
+    rv = rng.choice(['sep', 'sep', 'joint3', 'joint2'])
+    if rng.random() < 0.25:
+        if rv == 'sep':
+            fix[rng.choice(['OM1', 'OM2', 'OM3'])] = 0.0
+        elif rng.random() < 0.5:
+            fix['OM3' if rv == 'joint2' else 'SI1'] = 0.0
+    if rng.random() < 0.1:
+        fix['SI1'] = 0.0
+    if rng.random() < 0.1:                      # an omega fixed to a non-zero value stays random
+        fix.setdefault(rng.choice(['OM1', 'OM2', 'OM3']), 0.5)
+    leaves = list(LEAVES)
+    if rng.random() < 0.15:                     # statements that mention variance parameters (W = sqrt(SIGMA))
+        leaves += ['SI1'] + {'sep': ['OM1', 'OM3'], 'joint2': ['OM12', 'OM3'], 'joint3': ['OM12', 'OM23']}[rv]
     stmts, defined = [], []
     ode_at = rng.randrange(1, n) if rng.random() < 0.3 and n >= 4 else None
     pool = VARS[:-1]
     for i in range(n):
         if i == ode_at:
-            syms = LEAVES + defined
+            syms = leaves + defined
             ode = {'ke': rexpr(rng, syms, 1, fam), 'ka': rexpr(rng, syms, 1, fam) if rng.random() < 0.5 else None,
                    'lag': rexpr(rng, syms, 1, fam) if rng.random() < 0.3 else None,
                    'bio': rexpr(rng, syms, 1, fam) if rng.random() < 0.3 else None}
@@ -127,7 +147,7 @@ def gen_spec(rng):
             if ode['ka'] is not None:
                 defined.append('A_DEPOT(t)')
             continue
-        syms = LEAVES + defined
+        syms = leaves + defined
         if style == 'ssa':
             cand = [v for v in pool if v not in defined]
             if not cand:
@@ -141,8 +161,8 @@ def gen_spec(rng):
             lhs = rng.choice(['WGT', 'TH1'])       # shadowing a column / parameter
         alias_p = {'alias': 0.5, 'mixed': 0.25}.get(style, 0.08)
         if rng.random() < alias_p:
-            cands = [d for d in defined if d != lhs] or LEAVES
-            rhs = rng.choice(cands if rng.random() < 0.7 else LEAVES + cands)
+            cands = [d for d in defined if d != lhs] or leaves
+            rhs = rng.choice(cands if rng.random() < 0.7 else leaves + cands)
         else:
             rhs = rexpr(rng, syms, rng.choice([1, 1, 2, 2, 3]), fam)
         stmts.append([lhs, rhs])
@@ -155,27 +175,16 @@ def gen_spec(rng):
         stmts.append(['Y', rng.choice(last)])                      # Y is a pure alias
     else:
         f = rng.choice(last)
-        stmts.append(['Y', f'{f} + {f}*EPS1' if rng.random() < 0.6 else rexpr(rng, LEAVES + defined, 2, fam)])
+        stmts.append(['Y', f'{f} + {f}*EPS1' if rng.random() < 0.6 else rexpr(rng, leaves + defined, 2, fam)])
     if rng.random() < 0.12:      # IF (...) Y = ...
         # the condition reads only symbols that are never assigned, rational arithmetic only
         cl = ['APGR', 'ETA1', 'ETA2', 'TH2', 'TH3']
         c, d = rexpr(rng, cl, 1, 'pw', True), rexpr(rng, cl, 1, 'pw', True)
         stmts.append(['Y', f'Piecewise(({rexpr(rng, LEAVES + defined, 2, fam, True)}, ({c}) > ({d})), (Y, True))'])
-    fix = {}
-    for th in THETAS:
-        if rng.random() < 0.2:
-            fix[th] = rng.choice(INITS)
-    rv = rng.choice(['sep', 'sep', 'joint3', 'joint2'])
-    if rng.random() < 0.25:
-        if rv == 'sep':
-            fix[rng.choice(['OM1', 'OM2', 'OM3'])] = 0.0
-        elif rng.random() < 0.5:
-            fix['OM3' if rv == 'joint2' else 'SI1'] = 0.0
-    if rng.random() < 0.1:
-        fix['SI1'] = 0.0
     renames = []
     for _ in range(2):
-        cand = THETAS + ETAS + EPSS + [d for d in defined if '(' not in d and d not in COLS] + ['Y']
+        cand = THETAS + ETAS + EPSS + ['OM1', 'SI1'] + [d for d in defined if '(' not in d and d not in COLS] + ['Y']
+        cand = sorted(set(cand))
         keys = rng.sample(cand, min(len(cand), rng.choice([1, 2, 3])))
         if rng.random() < 0.15:
             vals = [rng.choice(cand + NEWNAMES) for _ in keys]       # possible clash
@@ -186,6 +195,10 @@ def gen_spec(rng):
 
 
 class InvalidSpec(Exception):
+    pass
+
+
+class EngineRefusal(Exception):
     pass
 
 
@@ -246,9 +259,18 @@ def build_model(spec):
 
 
 def opaque(e):
-    """sympy tree with applied undefined functions (A_CENTRAL(t)) turned into opaque symbols"""
+    """sympy tree prepared for harness/lib/sym2coq (which is fail-closed on these nodes):
+    applied undefined functions (A_CENTRAL(t)) -> opaque symbols; E -> the symbol __EXP1 (pinned to 2 = the value
+    Base/Interp.v gives exp(1)); zoo / nan -> symbols that never get a value (undefined); ITE -> And/Or/Not."""
+    from sympy.logic.boolalg import ITE
     e = sc.to_sympy(e)
-    return e.replace(lambda x: isinstance(x, AppliedUndef), lambda x: sympy.Symbol(str(x)))
+    e = e.replace(lambda x: isinstance(x, AppliedUndef), lambda x: sympy.Symbol(str(x)))
+    if e.has(ITE):
+        e = e.replace(lambda x: isinstance(x, ITE), lambda x: x.to_nnf(simplify=False))
+    if e.has(sympy.E) or e.has(sympy.zoo) or e.has(sympy.nan):
+        e = e.xreplace({sympy.E: sympy.Symbol('__EXP1'), sympy.zoo: sympy.Symbol('__UNDEF'),
+                        sympy.nan: sympy.Symbol('__UNDEF')})
+    return e
 
 
 def cexpr(e, names):
@@ -279,7 +301,13 @@ def ode_args(cs):
 def stm_term(st, names):
     from pharmpy.model import Assignment
     if isinstance(st, Assignment):
-        return f"(SAssign {names.p(str(opaque(st.symbol)))} {cexpr(st.expression, names)})"
+        e = opaque(st.expression)
+        t = sc.expr(e, names)
+        if isinstance(e, sympy.Symbol) and not st.expression.is_symbol():
+            # symengine keeps e.g. exp(log(X)) where sympy (the exporter) returns the bare symbol X: the
+            # implementation's `is_symbol()` is False, keep that visible to the model (X + 0)
+            t = f"(Add {t} (Num (0#1)%Q))"
+        return f"(SAssign {names.p(str(opaque(st.symbol)))} {t})"
     amts = [names.p(str(sc.to_sympy(a))) for a in st.amounts]
     return f"(SOde {ct.lst(amts)} {ct.lst([cexpr(a, names) for a in ode_args(st)])})"
 
@@ -296,6 +324,11 @@ def obs_of(thunk, conv, info, what):
         return 'OValueError'
     except sc.Unconvertible:
         raise
+    except RuntimeError as e:
+        # symengine refuses to evaluate (division by zero / "Invalid comparison of complex zoo" when an eta
+        # fixed to zero is substituted, also in a branch that is never taken): counted, inconclusive
+        info['errors'].append(f'{what}:engine-RuntimeError')
+        return 'OEngine'
     except Exception as e:      # internal error class
         info['errors'].append(f'{what}:{type(e).__name__}')
         return 'OOther'
@@ -339,16 +372,21 @@ def observe(spec, points_rng, mods=None):
         names.get(n)
     try:
         model = build_model(spec)
-    except ValueError as e:      # Model.create refuses the program (not a valid model)
-        raise InvalidSpec(str(e))
+    except (ValueError, RecursionError, ZeroDivisionError, sympy.SympifyError) as e:
+        # Model.create refuses the program (not a valid model), or sympy cannot even parse the text
+        raise InvalidSpec(f'{type(e).__name__}: {e}'[:200])
     info = {'n': len(model.statements), 'errors': []}
-    known = model.parameters.names + model.random_variables.names + COLS + ['t'] + AMOUNTS
+    known = model.parameters.names + model.random_variables.names + COLS + ['t'] + AMOUNTS + ['__EXP1', '__UNDEF']
     fixed = [(p.name, F(str(p.init))) for p in model.parameters if p.fix]
     dists = [f"(mkDist {ct.lst([names.p(x) for x in d.names])} {ct.lst([names.p(x) for x in d.parameter_names])})"
              for d in model.random_variables]
     prog = stms_term(model.statements, names)
     decl = obs_of(lambda: fn['make_declarative'](model).statements, lambda r: stms_term(r, names), info, 'decl')
-    clean = obs_of(lambda: fn['cleanup_model'](model).statements, lambda r: stms_term(r, names), info, 'clean')
+    def conv_clean(m2):
+        dang = [p for p in m2.random_variables.parameter_names if p not in m2.parameters.names]
+        return ct.tup(stms_term(m2.statements, names), ct.lst([names.p(x) for x in m2.parameters.names]),
+                      ct.lst([names.p(x) for x in dang]))
+    clean = obs_of(lambda: fn['cleanup_model'](model), conv_clean, info, 'clean')
     rens = []
     for ren in spec.get('renames', []):
         d = {k: v for k, v in ren}
@@ -366,6 +404,9 @@ def observe(spec, points_rng, mods=None):
             o, ps, rv = 'OValueError', '[]', '[]'
         except sc.Unconvertible:
             raise
+        except RuntimeError:
+            info['errors'].append('rename:engine-RuntimeError')
+            o, ps, rv = 'OEngine', '[]', '[]'
         except Exception as e:
             info['errors'].append(f'rename:{type(e).__name__}')
             o, ps, rv = 'OOther', '[]', '[]'
@@ -386,6 +427,10 @@ def observe(spec, points_rng, mods=None):
     info['fixed'] = len(fixed)
     allnames = [names.name(i) for i in range(1, names.next)]
     pts = gen_points(points_rng, allnames, pins)
+    for pt in pts:
+        pt.pop('__UNDEF', None)
+        if '__EXP1' in pt:
+            pt['__EXP1'] = F(2)
     term = ("(mkCase " + ct.lst([names.p(k) for k in known]) + " " + ct.lst([names.p('Y')]) + "\n  "
             + ct.lst([ct.pair(names.p(n), ct.q(q)) for n, q in fixed]) + " " + ct.lst(dists) + "\n  " + prog
             + "\n  " + decl + "\n  " + clean + "\n  " + ct.lst(rens) + "\n  "
@@ -434,20 +479,20 @@ def classify(ctx, spec, tags, info):
     return status
 
 
-def run_specs(ctx, specs, label, quiet=False, mods=None):
+def run_specs(ctx, specs, label, quiet=False, mods=None, verdict='verdict'):
     terms, kept, infos = [], [], []
     skipped = {}
     prng = random.Random(f'{ctx.seed}-{label}-pts')
     for spec in specs:
         try:
             term, info = observe(spec, prng, mods)
-        except (sc.Unconvertible, InvalidSpec, ZeroDivisionError, sympy.SympifyError, TypeError) as e:
+        except (sc.Unconvertible, InvalidSpec, EngineRefusal, ZeroDivisionError, sympy.SympifyError, TypeError) as e:
             skipped[type(e).__name__] = skipped.get(type(e).__name__, 0) + 1
             continue
         terms.append(term)
         kept.append(spec)
         infos.append(info)
-    verdicts = ctx.run_cases(label, IMPORTS, 'case', terms, 'verdict', shard=40)
+    verdicts = ctx.run_cases(label, IMPORTS, 'case', terms, verdict, shard=40)
     if quiet:
         return kept, verdicts, infos, None
     sk = ctx.coverage.setdefault('skipped_invalid_or_unconvertible', {})
@@ -476,6 +521,285 @@ def finding_probes(ctx):
             ctx.notes.append(f"finding_not_reproduced {f['id']} (tags {sorted(tags)})")
 
 
+# ------------------------------------------------------------------ oracle-only stream (validation)
+POW2 = [F(1), F(2), F(4), F(8), F(1, 2), F(1, 4), F(16)]
+SMALL = [F(0), F(1), F(-1), F(2), F(0), F(1)]
+OTAGS = {33: 'make_declarative / cleanup_model raises ValueError on a corpus model',
+         31: 'refactoring changes the value of a symbol on a corpus model',
+         32: 'refactoring drops the definition of a dependent variable on a corpus model'}
+
+
+def corpus_starts():
+    from pharmpy.modeling import create_basic_pk_model, load_example_model
+    return {
+        'pheno': lambda: load_example_model('pheno'),
+        'moxo': lambda: load_example_model('moxo'),
+        'basic_iv': lambda: create_basic_pk_model('iv'),
+        'basic_oral': lambda: create_basic_pk_model('oral'),
+    }
+
+
+def corpus_steps():
+    import pharmpy.modeling as pm
+
+    def first_theta(m):
+        return pm.fix_parameters(m, [pm.get_thetas(m).names[0]])
+
+    def joint2(m):
+        etas = m.random_variables.etas.names
+        return pm.create_joint_distribution(m, list(etas[:2]))
+
+    def fix_sigma(m):
+        return pm.fix_parameters(m, [pm.get_sigmas(m).names[0]])
+
+    return {
+        'add_peripheral_compartment': pm.add_peripheral_compartment,
+        'set_first_order_absorption': pm.set_first_order_absorption,
+        'set_zero_order_absorption': pm.set_zero_order_absorption,
+        'add_lag_time': pm.add_lag_time,
+        'set_transit_compartments_1': lambda m: pm.set_transit_compartments(m, 1),
+        'set_michaelis_menten_elimination': pm.set_michaelis_menten_elimination,
+        'set_proportional_error_model': pm.set_proportional_error_model,
+        'set_additive_error_model': pm.set_additive_error_model,
+        'set_combined_error_model': pm.set_combined_error_model,
+        'set_iiv_on_ruv': pm.set_iiv_on_ruv,
+        'set_power_on_ruv': pm.set_power_on_ruv,
+        'add_covariate_effect_CL_WGT_pow': lambda m: pm.add_covariate_effect(m, 'CL', 'WGT', 'pow'),
+        'add_covariate_effect_CL_WGT_lin': lambda m: pm.add_covariate_effect(m, 'CL', 'WGT', 'lin'),
+        'fix_first_theta': first_theta,
+        'fix_first_sigma': fix_sigma,
+        'create_joint_distribution_2': joint2,
+        'mu_reference_model': pm.mu_reference_model,
+        'make_declarative': pm.make_declarative,
+    }
+
+
+def corpus_refactorings():
+    import pharmpy.modeling as pm
+
+    def there_and_back(m):
+        if m.dataset is None:       # update_source of a NONMEM model may need the dataset (CMT column)
+            raise NotImplementedError('no dataset')
+        return pm.convert_model(pm.convert_model(m, 'generic'), 'nonmem')
+
+    def unload_load(m):
+        m2 = pm.unload_dataset(m)
+        return pm.load_dataset(m2) if m.dataset is not None else m2
+
+    def join_all(m):
+        return pm.create_joint_distribution(m, list(m.random_variables.etas.names))
+
+    return {
+        'mu_reference_model': pm.mu_reference_model,
+        'greekify_model': pm.greekify_model,
+        'greekify_model_named': lambda m: pm.greekify_model(m, named_subscripts=True),
+        'make_declarative': pm.make_declarative,
+        'cleanup_model': pm.cleanup_model,
+        'convert_model_generic': lambda m: pm.convert_model(m, 'generic'),
+        'convert_model_generic_nonmem': there_and_back,
+        'unload_load_dataset': unload_load,
+        'remove_unused_parameters_and_rvs': pm.remove_unused_parameters_and_rvs,
+        'create_joint_distribution': join_all,
+        'split_joint_distribution': pm.split_joint_distribution,
+        'replace_fixed_thetas': pm.replace_fixed_thetas,
+        'replace_non_random_rvs': pm.replace_non_random_rvs,
+    }
+
+
+def gen_history(rng):
+    steps = sorted(corpus_steps())
+    k = rng.choice([0, 1, 1, 2, 2, 3])
+    return {'start': rng.choice(sorted(corpus_starts())), 'history': [rng.choice(steps) for _ in range(k)],
+            'refactoring': rng.choice(sorted(corpus_refactorings()))}
+
+
+def observe_pair(hspec, prng):
+    """Returns (term, info) or raises Skip-like exceptions.  info['error'] set when the refactoring raised."""
+    starts, steps, refs = corpus_starts(), corpus_steps(), corpus_refactorings()
+    m = starts[hspec['start']]()
+    applied = []
+    for st in hspec['history']:
+        try:
+            m = steps[st](m)
+            applied.append(st)
+        except Exception:
+            pass                      # the history step is not applicable to this model: skip the step
+    info = {'applied': applied, 'error': None, 'n': len(m.statements)}
+    info['fixed_variance'] = any(p.fix and p.init != 0 and p.name in m.random_variables.parameter_names
+                                 for p in m.parameters)
+    names = ct.Names()
+    try:
+        m2 = refs[hspec['refactoring']](m)
+    except Exception as e:
+        info['error'] = f'{type(e).__name__}: {e}'[:200]
+        if isinstance(e, ValueError) and hspec['refactoring'] in ('cleanup_model', 'make_declarative'):
+            before = stms_term(m.statements, names)
+            return f"(mkP {before} [] [] [] true [])", info
+        return None, info
+    before = stms_term(m.statements, names)
+    after = stms_term(m2.statements, names)
+    ren = []
+    if hspec['refactoring'].startswith('greekify'):
+        for a, b in zip(m.parameters.names, m2.parameters.names):
+            if a != b:
+                ren.append((a, b))
+        for a, b in zip(m.random_variables.names, m2.random_variables.names):
+            if a != b:
+                ren.append((a, b))
+    pins = {p.name: F(str(p.init)) for p in m.parameters if p.fix}
+    for d in m.random_variables:
+        if all(m.parameters[p].fix and m.parameters[p].init == 0 for p in d.parameter_names):
+            pins.update({n: F(0) for n in d.names})
+    rvn = set(m.random_variables.names)
+    for a, b in ren:
+        names.get(a), names.get(b)
+    allnames = [names.name(i) for i in range(1, names.next)]
+    newnames = {b for _, b in ren}
+    pts = []
+    for _ in range(10):
+        pt = {n: (prng.choice(SMALL) if n in rvn else prng.choice(POW2)) for n in allnames if n not in newnames}
+        pt.update({k: v for k, v in pins.items() if k in pt})
+        pts.append(pt)
+    outs = [str(opaque(y)) for y in m.dependent_variables]
+    term = ("(mkP " + before + "\n  " + after + "\n  " + ct.lst([ct.pair(names.p(a), names.p(b)) for a, b in ren])
+            + " " + ct.lst([names.p(y) for y in outs]) + " false\n  " + ct.lst([sc.env(pt, names) for pt in pts]) + ")")
+    info['changed_text'] = str(m.statements) != str(m2.statements)
+    return term, info
+
+
+def corpus_oracle(ctx, n):
+    """Validation only: the refactorings that are not modelled, on corpus models reached by short histories;
+    statements before / after are evaluated with the Coq evaluator (ODE amounts: position-sensitive oracle)."""
+    prng = random.Random(f'{ctx.seed}-corpus-pts')
+    hs = [gen_history(ctx.rng) for _ in range(n)]
+    # every refactoring at least once on the untouched start models
+    hs = [{'start': s, 'history': [], 'refactoring': r} for s in sorted(corpus_starts())
+          for r in sorted(corpus_refactorings())] + hs
+    hs.append({'start': 'pheno', 'history': ['fix_first_sigma'], 'refactoring': 'cleanup_model'})
+    hs.append({'start': 'pheno', 'history': ['add_peripheral_compartment'], 'refactoring': 'cleanup_model'})
+    terms, kept, infos = [], [], []
+    stats = {'refactoring_raised': {}, 'unconvertible': 0, 'compared': 0, 'inconclusive': 0, 'dv_points_compared': 0,
+             'per_refactoring': {}, 'text_changed': 0, 'known': 0}
+    for h in hs:
+        try:
+            term, info = observe_pair(h, prng)
+        except sc.Unconvertible:
+            stats['unconvertible'] += 1
+            continue
+        if term is None:
+            cls = info['error'].split(':')[0]
+            key = h['refactoring'] + ': ' + cls
+            stats['refactoring_raised'][key] = stats['refactoring_raised'].get(key, 0) + 1
+            h2 = dict(h, applied=info['applied'], error=info['error'])
+            stats.setdefault('raised_samples', [])
+            if len(stats['raised_samples']) < 6:
+                stats['raised_samples'].append(h2)
+            if cls not in ('ValueError', 'NotImplementedError'):
+                # an internal error; explained only by the open finding about fixed variance parameters
+                if (h['refactoring'] in ('cleanup_model', 'replace_fixed_thetas') and info.get('fixed_variance')
+                        and ctx.open_finding('C07-FIXED-THETAS-REMOVES-OMEGAS')):
+                    stats['known'] += 1
+                else:
+                    ctx.violation(f"{h['refactoring']} raises {info['error']} on a corpus model "
+                                  f"(after {info['applied']} on {h['start']})", {'corpus': h})
+            continue
+        terms.append(term)
+        kept.append(h)
+        infos.append(info)
+    verdicts = ctx.run_cases('corpus', IMPORTS, 'pcase', terms, 'verdict_pair', shard=12)
+    for h, v, info in zip(kept, verdicts, infos):
+        tags = set(v)
+        if 33 in tags:
+            key = h['refactoring'] + ': ' + info['error'][:60]
+            stats['refactoring_raised'][key] = stats['refactoring_raised'].get(key, 0) + 1
+            fid = ('C07-CLEANUP-ALIAS-CHAIN' if 202 in tags and h['refactoring'] == 'cleanup_model'
+                   else 'C07-DECL-STALE-CAPTURE' if 201 in tags else None)
+            if fid and ctx.open_finding(fid):
+                stats['known'] += 1
+                kh = ctx.coverage.setdefault('known_hits', {})
+                kh[fid] = kh.get(fid, 0) + 1
+            else:
+                ctx.violation(f"{h['refactoring']} raises {info['error']} on a corpus model "
+                              f"(after {info['applied']} on {h['start']})", {'corpus': h, 'tags': sorted(tags)})
+            continue
+        stats['per_refactoring'][h['refactoring']] = stats['per_refactoring'].get(h['refactoring'], 0) + 1
+        stats['text_changed'] += 1 if info.get('changed_text') else 0
+        stats['dv_points_compared'] += sum(t - 2000 for t in tags if t >= 2000)
+        if 1031 in tags:
+            stats['inconclusive'] += 1
+        else:
+            stats['compared'] += 1
+        for t in (31, 32):
+            if t in tags:
+                ctx.violation(OTAGS[t] + f" ({h['refactoring']} after {info['applied']} on {h['start']})",
+                              {'corpus': h, 'tags': sorted(tags)})
+    ctx.coverage['corpus_oracle'] = stats
+    return len(kept)
+
+
+# ------------------------------------------------------------------ oracle-only: gradient extractors
+def gen_grad_spec(rng):
+    """Statements affine in the etas/eps; Y = affine*affine + affine*EPS1 (degree <= 2 in every eta)."""
+    def free(depth=1):       # an expression without etas / eps
+        return rexpr(rng, THETAS + ['WGT', 'APGR'], depth, 'pw', True)
+    stmts, aff = [], []
+    for v in rng.sample(['A', 'B', 'C', 'D', 'CL', 'V'], rng.choice([2, 3, 4])):
+        k = rng.random()
+        if k < 0.5 or not aff:
+            e = f'({free()}) + ({free()})*{rng.choice(ETAS)}'
+        elif k < 0.8:
+            e = f'({rng.choice(aff)}) + ({free()})*{rng.choice(ETAS)}'
+        else:
+            e = f'({rng.choice(aff)})*({free()}) - {rng.choice(aff)}'
+        stmts.append([v, e])
+        aff.append(v)
+    stmts.append(['IPRED', f'({rng.choice(aff)})*({rng.choice(aff)}) + {free()}'])
+    stmts.append(['W', f'{rng.choice(aff)} + {free(0)}'])
+    stmts.append(['Y', 'IPRED + W*EPS1'])
+    return {'stmts': stmts, 'fix': {}, 'rvs': rng.choice(['sep', 'joint3']), 'renames': []}
+
+
+def observe_grad(spec, prng):
+    from pharmpy.modeling import calculate_epsilon_gradient_expression, calculate_eta_gradient_expression
+    names = ct.Names()
+    try:
+        model = build_model(spec)
+    except RecursionError as e:
+        raise ValueError(str(e)[:100])
+    etag = calculate_eta_gradient_expression(model)
+    epsg = calculate_epsilon_gradient_expression(model)
+    etas, epss = model.random_variables.etas.names, model.random_variables.epsilons.names
+    prog = stms_term(model.statements, names)
+    t1 = ct.lst([ct.pair(names.p(n), cexpr(g, names)) for n, g in zip(etas, etag)])
+    t2 = ct.lst([ct.pair(names.p(n), cexpr(g, names)) for n, g in zip(epss, epsg)])
+    allnames = [names.name(i) for i in range(1, names.next)]
+    pts = [{n: prng.choice(VALUES) for n in allnames} for _ in range(6)]
+    return (f"(mkG {prog} {names.p('Y')} {ct.lst([names.p(e) for e in epss])}\n  {t1}\n  {t2}\n  "
+            + ct.lst([sc.env(pt, names) for pt in pts]) + ")")
+
+
+def gradient_oracle(ctx, n):
+    prng = random.Random(f'{ctx.seed}-grad-pts')
+    specs, terms = [], []
+    for _ in range(n):
+        spec = gen_grad_spec(ctx.rng)
+        try:
+            terms.append(observe_grad(spec, prng))
+            specs.append(spec)
+        except (sc.Unconvertible, ValueError, ZeroDivisionError, TypeError, sympy.SympifyError):
+            ctx.coverage['gradient_skipped'] = ctx.coverage.get('gradient_skipped', 0) + 1
+    verdicts = ctx.run_cases('grad', IMPORTS, 'gcase', terms, 'verdict_grad', shard=25)
+    pts = 0
+    for spec, v in zip(specs, verdicts):
+        pts += sum(t - 2000 for t in v if t >= 2000)
+        for t, what in ((41, 'calculate_eta_gradient_expression differs from the exact central difference'),
+                        (42, 'calculate_epsilon_gradient_expression differs from the exact central difference')):
+            if t in v:
+                ctx.violation(what, {'grad_spec': spec, 'tags': v})
+    ctx.coverage['gradient_oracle'] = {'programs': len(specs), 'defined_points': pts}
+    return len(specs)
+
+
 def run(ctx):
     ctx.build_gate(['C07'])
     ctx.trusted += [
@@ -497,7 +821,7 @@ def run(ctx):
     finding_probes(ctx)
     reg = sorted((VERIF / 'regress' / 'C07').glob('*.json'))
     specs = [json.loads(p.read_text()) for p in reg]
-    n = 400 if ctx.tier == 'quick' else 5000
+    n = 350 if ctx.tier == 'quick' else 5000
     specs += [gen_spec(ctx.rng) for _ in range(n)]
     kept, verdicts, infos, stats = run_specs(ctx, specs, 'gen')
     ctx.coverage['evaluations'] = sum(i['nqueries'] for i in infos)
@@ -524,13 +848,32 @@ def run(ctx):
         'dv_is_alias': sum(1 for v in verdicts if 205 in v),
         'dv_assigned_twice': sum(1 for v in verdicts if 207 in v),
         'shadowing_programs': sum(1 for v in verdicts if 208 in v),
+        'fixed_variance_parameter': sum(1 for v in verdicts if 209 in v),
+        'strictly_valid_programs': sum(1 for v in verdicts if 211 not in v),
         'family': {k: sum(1 for s in kept if s.get('family') == k) for k in ('tr', 'pw')},
         'reassigning_programs': sum(1 for s in kept if len({l for l, _ in s['stmts']}) < len(s['stmts'])),
     }
     ctx.coverage['samples'] = [{'spec': s, 'tags': v} for s, v in list(zip(kept, verdicts))[:4]]
+    ncorp = corpus_oracle(ctx, 40 if ctx.tier == 'quick' else 500)
+    ctx.coverage['evaluations'] += ncorp
+    ctx.coverage['evaluations'] += gradient_oracle(ctx, 60 if ctx.tier == 'quick' else 600)
 
 
 def replay(ctx, rep):
+    if 'corpus' in rep:
+        prng = random.Random(f'{ctx.seed}-corpus-pts')
+        term, info = observe_pair(rep['corpus'], prng)
+        print('corpus', json.dumps(rep['corpus']), info)
+        if term is None:
+            return 1
+        tags = ctx.run_cases('replay', IMPORTS, 'pcase', [term], 'verdict_pair')[0]
+        print('tags', tags, [OTAGS.get(t, t) for t in tags])
+        return 1 if any(t in OTAGS for t in tags) else 0
+    if 'grad_spec' in rep:
+        tags = ctx.run_cases('replay', IMPORTS, 'gcase', [observe_grad(rep['grad_spec'], random.Random('r'))],
+                             'verdict_grad')[0]
+        print('grad_spec', json.dumps(rep['grad_spec']), 'tags', tags)
+        return 1 if 41 in tags or 42 in tags else 0
     spec = rep['spec']
     kept, verdicts, _, _ = run_specs(ctx, [spec], 'replay', quiet=True)
     tags = verdicts[0]
